@@ -127,6 +127,82 @@ func withFields(items []*m.Item, kinds ...string) []*m.Item {
 }
 
 // implementer finds (item that declares the interface AND holds the field, interface item, required field).
+// loseSubtypeRelation finds an implementer field whose named type is narrower than the interface's and removes the
+// relation (union membership, implements) that made it narrower.
+func loseSubtypeRelation(r *core.Rand, items []*m.Item) ([]*m.Item, []string, bool) {
+	mg := Merge(items)
+	type cand struct{ impl, intf, wide, narrow string }
+	var cs []cand
+	for _, n := range mg.TypeNames {
+		d := mg.Types[n]
+		if d.BuiltIn || (d.Kind != "type" && d.Kind != "interface") {
+			continue
+		}
+		for _, in := range d.Interfaces {
+			id := mg.Types[in]
+			if id == nil {
+				continue
+			}
+			for _, rf := range id.Fields {
+				for _, ff := range d.Fields {
+					if ff.Name == rf.Name && ff.Type.Base() != rf.Type.Base() && !(ff.Type.Base() == n && rf.Type.Base() == in) {
+						cs = append(cs, cand{n, in, rf.Type.Base(), ff.Type.Base()})
+					}
+				}
+			}
+		}
+	}
+	if len(cs) == 0 {
+		return nil, nil, false
+	}
+	c := cs[r.Intn(len(cs))]
+	wd := mg.Types[c.wide]
+	if wd == nil {
+		return nil, nil, false
+	}
+	drop := func(l []string, n string) []string {
+		var out []string
+		for _, e := range l {
+			if e != n {
+				out = append(out, e)
+			}
+		}
+		return out
+	}
+	switch wd.Kind {
+	case "union":
+		if len(wd.Members) < 2 {
+			return nil, nil, false
+		}
+		var keep []*m.Item
+		for _, it := range items {
+			if it.Kind == "union" && it.Name == c.wide {
+				it.Members = drop(it.Members, c.narrow)
+				if it.Extend && len(it.Members) == 0 && len(it.Dirs) == 0 {
+					continue // an extension that adds nothing is not in the grammar
+				}
+			}
+			keep = append(keep, it)
+		}
+		items = keep
+	case "interface":
+		var keep []*m.Item
+		for _, it := range items {
+			if (it.Kind == "type" || it.Kind == "interface") && it.Name == c.narrow {
+				it.Interfaces = drop(it.Interfaces, c.wide)
+				if it.Extend && len(it.Interfaces) == 0 && len(it.Dirs) == 0 && len(it.Fields) == 0 {
+					continue
+				}
+			}
+			keep = append(keep, it)
+		}
+		items = keep
+	default:
+		return nil, nil, false
+	}
+	return items, []string{c.impl, c.intf, c.wide, c.narrow}, true
+}
+
 func findImplPair(r *core.Rand, items []*m.Item, needArgs bool) (holder *m.Item, impl string, intf *m.Item, rf *m.FieldDef, ff *m.FieldDef) {
 	mg := Merge(items)
 	type cand struct {
@@ -417,6 +493,13 @@ var Faults = []Fault{
 		return items, []string{impl, intf.Name}, true
 	}},
 	{"non-covariant-field", func(r *core.Rand, items []*m.Item) ([]*m.Item, []string, bool) {
+		if r.Bool() {
+			// the field types stay as they are; what makes the narrower type a subtype goes away (the union loses the
+			// member, the object no longer declares the interface): every name is unchanged, only the relation differs
+			if out, inv, ok := loseSubtypeRelation(r, items); ok {
+				return out, inv, true
+			}
+		}
 		_, impl, intf, rf, ff := findImplPair(r, items, false)
 		if ff == nil {
 			return nil, nil, false
@@ -641,12 +724,58 @@ var Faults = []Fault{
 		case 1:
 			d.Args = []m.Arg{{Name: "may", Value: &m.Value{Kind: m.VInt, Raw: "1"}}}
 		}
+		if r.Chance(1, 3) {
+			if out, owner := applyGoodAndBad(r, items, m.Dir{Name: dn, Args: []m.Arg{{Name: "must", Value: &m.Value{Kind: m.VInt, Raw: "1"}}}}, d); owner != "" {
+				return out, []string{owner, "@" + dn}, true
+			}
+		}
 		owner := applyDirSomewhere(r, items, d)
 		if owner == "" {
 			return nil, nil, false
 		}
 		return items, []string{owner, "@" + dn}, true
 	}},
+}
+
+// applyGoodAndBad applies a repeatable directive twice to one definition: once correctly and once with the fault, one of the
+// two through an extension of the definition (which of the two, and whether the extension comes first, is random) - the
+// merged list then has the faulty application first or last depending on how the sources are arranged.
+func applyGoodAndBad(r *core.Rand, items []*m.Item, good, bad m.Dir) ([]*m.Item, string) {
+	for _, pi := range r.Perm(len(items)) {
+		it := items[pi]
+		if it.Extend {
+			continue
+		}
+		switch it.Kind {
+		case "type", "interface", "union", "enum", "input", "scalar":
+		default:
+			continue
+		}
+		ext := &m.Item{Kind: it.Kind, Extend: true, Name: it.Name}
+		if r.Bool() {
+			// both through extensions of their own (extensions are merged in the order they are met)
+			ext2 := &m.Item{Kind: it.Kind, Extend: true, Name: it.Name, Dirs: []m.Dir{good}}
+			ext.Dirs = []m.Dir{bad}
+			if r.Bool() {
+				return append(items, ext, ext2), it.Name
+			}
+			return append(items, ext2, ext), it.Name
+		}
+		if r.Bool() {
+			it.Dirs = append(it.Dirs, good)
+			ext.Dirs = []m.Dir{bad}
+		} else {
+			it.Dirs = append(it.Dirs, bad)
+			ext.Dirs = []m.Dir{good}
+		}
+		if r.Bool() {
+			return append(items, ext), it.Name
+		}
+		out := append([]*m.Item{}, items[:pi]...)
+		out = append(out, ext)
+		return append(out, items[pi:]...), it.Name
+	}
+	return nil, ""
 }
 
 // applyDirSomewhere attaches d to a random type-system location and returns the owning definition's name.
@@ -768,6 +897,11 @@ var ExtraFaults = []Fault{
 	{"unknown-directive-argument", func(r *core.Rand, items []*m.Item) ([]*m.Item, []string, bool) {
 		dn := "noArgs"
 		items = append(items, &m.Item{Kind: "directive", Name: dn, Locations: append([]string{}, AllLocations...), Repeatable: true})
+		if r.Chance(1, 3) {
+			if out, owner := applyGoodAndBad(r, items, m.Dir{Name: dn}, m.Dir{Name: dn, Args: []m.Arg{{Name: "nope", Value: &m.Value{Kind: m.VInt, Raw: "1"}}}}); owner != "" {
+				return out, []string{owner, "@" + dn}, true
+			}
+		}
 		owner := applyDirSomewhere(r, items, m.Dir{Name: dn, Args: []m.Arg{{Name: "nope", Value: &m.Value{Kind: m.VInt, Raw: "1"}}}})
 		if owner == "" {
 			return nil, nil, false
